@@ -325,7 +325,13 @@ func init() {
 		for _, w := range []int{1, 2} {
 			sh, w := c02Shapes[idx], w
 			mk := c02Make([]cshape{sh}, w, false)
-			register(&Scenario{Prop: "C02", Name: fmt.Sprintf("%s-w%d-loadregulation", sh.name, w), Quick: 1, Thor: 2,
+			q, shards := 1, 1
+			if w == 2 {
+				// the lock-order window needs the worker and the adder both inside their
+				// critical sections: two preemptions
+				q, shards = 2, 4
+			}
+			register(&Scenario{Prop: "C02", Name: fmt.Sprintf("%s-w%d-loadregulation", sh.name, w), Quick: q, Thor: 2, FreeQuick: 2, FreeThor: 2, QuickShards: shards, ThorShards: 4,
 				Desc: fmt.Sprintf("cascade %s on %d worker(s) with the pool's too-many-tasks threshold at 1 (the regulation code runs on every add and every empty dequeue)", sh.name, w),
 				Make: func() (func(), func(e *vsched.Exec) (string, *vsched.Violation)) {
 					b, c := mk()
